@@ -301,7 +301,9 @@ def instrument(rec):
             if name == "_pre_before_trading":
                 rec.inputs.append({"k": "P", "today": d8(Environment.get_instance().trading_dt), "pf_pre": pre})
             else:
-                rec.inputs.append(dict(args, k="D"))
+                d_item = dict(args, k="D", units_pre=pre["units"])
+                rec.inputs.append(d_item)
+            n_ops0 = len(rec.ops)
             raised = None
             try:
                 return orig(self, *a, **k)
@@ -309,6 +311,8 @@ def instrument(rec):
                 raised = ex
                 raise
             finally:
+                if name == "deposit_withdraw" and raised is not None and len(rec.ops) == n_ops0:
+                    d_item["refused_by_portfolio"] = type(raised).__name__       # the portfolio refused before any account was touched (net value 0 / no units left)
                 rec.pf_ops.append({"op": name, "pre": pre, "post": pf_snap(self), "args": args, "raised": type(raised).__name__ if raised else None, "when": rec.now()})
         setattr(Portfolio, name, w)
     wrap_pf("deposit_withdraw", lambda self, account_type, amount, receiving_days=0: {"account": account_type, "amount": float(amount), "days": receiving_days,
